@@ -11,13 +11,34 @@ def main():
         ctx = vlib.Ctx(prop, "quick", rp.get("seed", seed))
         ok, out = vlib.build()
         if not ok: print("build failed", out); return 2
-        bad = mod.replay(ctx, rp)
+        if rp.get("kind") == "failing-input" and hasattr(mod, "oracle_case"):
+            res = mod.oracle_case(rp["case"]); bad = bool(res)
+            for sig, detail in res: print("still fails: %s: %s" % (sig, detail[:300]))
+        elif hasattr(mod, "replay"): bad = mod.replay(ctx, rp)
+        else:
+            mod.check(ctx); bad = bool(ctx.failures or ctx.disagreements)
         if bad:
             print("VIOLATION property=%s replay=%s" % (prop, sys.argv[3])); return 1
         print("replay: property holds on this input now"); return 0
     ctx = vlib.Ctx(prop, mode, seed)
     ctx.coq = vlib.coq_step(prop)
     if not any(f.startswith("build") for f in ctx.coq["failed"]):
+        # replay the recorded findings on the implementation: open ones are announced, fixed ones must stay fixed
+        import re
+        for e in ctx.known:
+            try:
+                res = mod.oracle_case(e["replay"]["case"]) if hasattr(mod, "oracle_case") else None
+            except Exception:
+                res = [("crash", traceback.format_exc()[-300:])]
+            if res is None: continue
+            hit = [r for r in res if re.fullmatch(e["signature"], r[0])]
+            if e["status"] == "open":
+                e["still_fails"] = bool(hit)
+                for r in res:
+                    if not re.fullmatch(e["signature"], r[0]): ctx.fail(r[0], e["replay"]["case"], r[1])
+            else:
+                e["still_fails"] = bool(res)
+                for r in res: ctx.failures.append(dict(signature=r[0], case=e["replay"]["case"], detail="fixed finding %s is back: %s" % (e["id"], r[1])))
         try:
             mod.check(ctx)
         except Exception:
